@@ -261,8 +261,9 @@ def check_long(case):
 FACETS = [
     Facet(name="scores_and_peaks", check=check, strategy=cases,
           rule=("bandwidth from the scorer's minimum size up to +7, n in [2bw,80], admissible min_detection_interval, threshold "
-                "scales {0,.3,1,2,None}; scorers CUSUM / L2 / GaussianVar on structured data and integer Table/Function change "
-                "scores (long exceedance runs with equal maxima); non-trivial = >= 1 changepoint"),
+                "scales {0,.3,1,2,None}; scorers CUSUM / L2 / GaussianVar / user subclasses on structured data (also int64, small / large units) and integer "
+                "Table/Function change scores (long exceedance runs with equal maxima); detector optionally fitted on other data (shorter / longer / the same buffer refilled afterwards) and optionally with a past (scorer pre-fitted on wider data; earlier predict on the caller's array / frame, then refilled in place); "
+                "non-trivial = >= 1 changepoint"),
           n_quick=800, n_thorough=12000, shards_quick=8, shards_thorough=16),
     Facet(name="time_reversal", check=check_reversal, strategy=reversal_cases,
           rule=("CUSUM / L2 scorers on float structured data, X and X reversed; scores compared within the prefix-sum error model; "
